@@ -96,6 +96,16 @@ def wrapper_helper_spec():
                       fn("m2", "m", "a", 30, [("m0", "bare"), ("h0", "lwrap")])]}
 
 
+def shared_module_attribute_spec():
+    """several functions of one module reach the SAME attributes of another module (`a.h0(x)`, `a.G0`), all below one root"""
+    def fn(name, kind, module, const, refs=()):
+        return {"name": name, "kind": kind, "module": module, "const": const, "default": None, "kwdefault": None, "setconst": None, "tupconst": None,
+                "sset": None, "pair": None, "nested": None, "explicit": None, "hidden": None, "refs": [list(r) for r in refs]}
+    helpers = [fn("h%d" % i, "p", "b", 10 + i, [("h0", "attr"), ("G0", "attr")] + ([("m9", "attr")] if i % 2 else [])) for i in range(1, 6)]
+    return {"pkg": "vpk", "nodes": [{"name": "G0", "kind": "v", "module": "a", "vkind": "int", "value": 3}, fn("h0", "p", "a", 7), fn("m9", "m", "a", 9)] + helpers +
+            [fn("m0", "m", "b", 30, [(h["name"], "bare") for h in helpers] + [("G0", "attr")]), fn("m1", "m", "b", 40, [("m0", "bare"), ("h0", "attr")])]}
+
+
 def run(tier, seed):
     rep = C.Report("C03", tier, seed)
     gate = C.proof_gate("C03")
@@ -108,8 +118,8 @@ def run(tier, seed):
     terms, metas = [], []
     with C.Scratch("c03") as scratch:
         jobs = []
-        for pi in range(n_prog + 2):
-            spec = cross_package_spec() if pi == n_prog else wrapper_helper_spec() if pi == n_prog + 1 else vprog.gen_spec(rng, n_m=rng.randint(2, 5), n_p=rng.randint(1, 3), n_v=rng.randint(1, 3), p_hidden=0.08, pkg2=rng.random() < 0.5, outside_helpers=True, lambdas=rng.random() < 0.5)
+        for pi in range(n_prog + 3):
+            spec = cross_package_spec() if pi == n_prog else wrapper_helper_spec() if pi == n_prog + 1 else shared_module_attribute_spec() if pi == n_prog + 2 else vprog.gen_spec(rng, n_m=rng.randint(2, 5), n_p=rng.randint(1, 3), n_v=rng.randint(1, 3), p_hidden=0.08, pkg2=rng.random() < 0.5, outside_helpers=True, lambdas=rng.random() < 0.5)
             if any(n.get("sset") for n in spec["nodes"]):
                 stats["with_string_set_constant"] += 1
             ms = vprog.mnames(spec)
